@@ -2,19 +2,22 @@
 """Print the prompt for a mutant-writing agent: property text only + its scratch worktree."""
 import json, sys
 pid = sys.argv[1]
-wt = f"/tmp/mut/{pid}"
+suffix = sys.argv[2] if len(sys.argv) > 2 else ""
+avoid = sys.argv[3] if len(sys.argv) > 3 else ""
+wt = f"/tmp/mut/{pid}{suffix}"
 for l in open("/verif/properties.jsonl"):
     d = json.loads(l)
     if d["id"] == pid:
         break
 prop = json.dumps({k: d[k] for k in ("id", "title", "statement", "quantifier", "why_tests_cant", "anchors")}, indent=1)
+AVOID = (f"Another engineer has already tried a change in {avoid}; choose a DIFFERENT function / mechanism from the property's anchors (ideally a different source file). " if avoid else "")
 print(f"""You are testing how well a semantic property of the Rust library rust-works/succinctly (succinct data structures: rank/select bitvectors, balanced parentheses, Elias-Fano; SIMD JSON/YAML/DSV semi-indexing; jq/yq interpreter and CLI) is protected. You have your own scratch git worktree of the repository at {wt} (work ONLY there; never touch /repo, /verif or any other directory except {wt} and {wt}.out). The sandbox has no network; cargo works offline (always pass --offline). 16 cores are shared with other jobs: use `-j 4`.
 
 The property (this is everything you are given about it):
 
 {prop}
 
-Your task: write ONE realistic change to the library's source code (under {wt}/src) that BREAKS this property while (a) the crate still compiles, including `cargo build --offline --features cli` and (b) the repository's existing test-suite still passes: `cd {wt} && cargo test --workspace --no-fail-fast --offline -j 4` (default features; ~4200 tests; first build takes several minutes — use `CARGO_TARGET_DIR={wt}/target`). The change should look like something a maintainer could plausibly commit (an optimisation, a refactor, a boundary tweak, a "simplification", a changed constant/table entry/mask/shift, a reordered condition, an off-by-one at a block/chunk/word boundary, a missing clamp, a wrong branch for a rare configuration), NOT a blatant sabotage that ordinary use would expose at once. Prefer a change that needs something specific to manifest: a particular input shape (long runs, a value straddling a 64-bit word / 512-bit block / 16- or 32-byte SIMD chunk boundary, a rare byte, a duplicate, an extreme number), a non-default configuration (sample rate, cargo feature, SIMD level, CLI flag), a multi-step sequence of operations (a cursor/cache history), or two cooperating sites that each look fine alone. Do not edit tests, benches, docs or Cargo.toml features; do not touch src/verif_hooks.rs or anything guarded by the `verif-hooks` feature; keep the diff small (ideally < 30 changed lines).
+Your task: write ONE realistic change to the library's source code (under {wt}/src) that BREAKS this property while (a) the crate still compiles, including `cargo build --offline --features cli` and (b) the repository's existing test-suite still passes: `cd {wt} && cargo test --workspace --no-fail-fast --offline -j 4` (default features; ~4200 tests; first build takes several minutes — use `CARGO_TARGET_DIR={wt}/target`). The change should look like something a maintainer could plausibly commit (an optimisation, a refactor, a boundary tweak, a "simplification", a changed constant/table entry/mask/shift, a reordered condition, an off-by-one at a block/chunk/word boundary, a missing clamp, a wrong branch for a rare configuration), NOT a blatant sabotage that ordinary use would expose at once. {AVOID}Prefer a change that needs something specific to manifest: a particular input shape (long runs, a value straddling a 64-bit word / 512-bit block / 16- or 32-byte SIMD chunk boundary, a rare byte, a duplicate, an extreme number), a non-default configuration (sample rate, cargo feature, SIMD level, CLI flag), a multi-step sequence of operations (a cursor/cache history), or two cooperating sites that each look fine alone. Do not edit tests, benches, docs or Cargo.toml features; do not touch src/verif_hooks.rs or anything guarded by the `verif-hooks` feature; keep the diff small (ideally < 30 changed lines).
 
 Also write a DEMONSTRATION: a small Rust integration test file ({wt}/tests/mutant_demo.rs) or a small shell script driving the built CLI, which PASSES on the unmodified code and FAILS with your change, by checking the property directly on a concrete input (compare with a naive computation or a known-correct expected value).
 
